@@ -644,6 +644,10 @@ func outOfFlowLayout(context *layoutContext, box bo.Box, index int, child_ Box, 
 			pageBreak := blockLevelPageBreak(lastInFlowChild, child_)
 			resumeAt = tree.ResumeStack{index: nil}
 			stop = true
+			// The float is laid out again, as a whole, on the next page:
+			// it is not to be continued there as well.
+			removePlaceholders(context, []Box{newChild}, absoluteBoxes, fixedBoxes)
+			outOfFlowLayoutResumeAt = nil
 			if len(*newChildren) != 0 && avoidPageBreak(pageBreak, context) {
 				// Can’t break inside float, find an earlier page break.
 				r1, r2 := findEarlierPageBreak(context, *newChildren, absoluteBoxes, fixedBoxes)
